@@ -244,15 +244,18 @@ class UniformMeshGenerator:
             preference="top",
         )
         # combine all mesh points using all material boundaries as anchors with top preference
-        # top vs. bottom preference is somewhat arbitrary here
+        # top vs. bottom preference is somewhat arbitrary here. The bottom of the core is a mesh
+        # point as well (the common mesh only lists the tops of the mesh cells), so it takes part
+        # in the filtering as an anchor: the first cell obeys the minimum size too.
+        bottom = self._sourceReactor.core.refAssem[0].p.zbottom
         combinedMesh = self._filterMesh(
-            list(set(meshWithBottoms + meshWithTops)),
+            list(set(meshWithBottoms + meshWithTops + [bottom])),
             self.minimumMeshSize,
-            materialAnchors,
+            list(materialAnchors) + [bottom],
             preference="top",
         )
 
-        self._commonMesh = np.array(combinedMesh)
+        self._commonMesh = np.array([z for z in combinedMesh if z > bottom])
 
     def _filterMesh(
         self, meshList, minimumMeshSize, anchorPoints, preference="bottom", warn=False
